@@ -1,7 +1,58 @@
 import TTV.Sexp
-/-! Driver glue for C04 — stub, replaced when the property's model is built. -/
+import TTV.Model.Result
+import TTV.Model.ResC04
+import TTV.Spec.C04
+import TTV.Drv.Res
+/-! Driver glue for C04. -/
 namespace TTV.Drv.C04
-open TTV
+open TTV TTV.Sexp TTV.Result TTV.ResC04 TTV.Drv.Res
 
-def handle (_ : List Sexp) : Sexp := .atom "unimplemented"
+def input? : Sexp → Option Input
+  | .list [s, h, p] => do
+      let (sh, hs) ← shapeHist? (.list [s, h])
+      let pr ← opt? (pair? bool? (list? kind?)) p
+      some { shape := sh, hist := hs, prog := pr }
+  | _ => none
+
+def out? : Sexp → Option Out
+  | .atom "running" => some .running
+  | .list [.atom "sect", l, t] => do some (.sect (← nat? l) (← nat? t))
+  | .list [.atom "ran", n] => (nat? n).map .ran
+  | .atom "ok" => some .ok
+  | .list [.atom "failed", k] => (nat? k).map .failed
+  | _ => none
+def ofOut : Out → Sexp
+  | .running => .atom "running"
+  | .sect l t => tag "sect" [ofNat l, ofNat t]
+  | .ran n => tag "ran" [ofNat n]
+  | .ok => .atom "ok"
+  | .failed k => tag "failed" [ofNat k]
+
+def obs? : Sexp → Option Obs
+  | .list [a, b, c, d] => do some { ws := ← bool? a, ss := ← bool? b, ff := ← opt? bool? c, leafStop := ← list? bool? d }
+  | _ => none
+def ofObs (o : Obs) : Sexp := .list [ofBool o.ws, ofBool o.ss, ofOpt ofBool o.ff, ofList ofBool o.leafStop]
+
+def trace? : Sexp → Option Trace
+  | .list [a, b, c, d, e] => do
+      some { ff0 := ← opt? bool? a, leafFF := ← list? bool? b, obs := ← list? obs? c,
+             texts := ← list? (list? out?) d, exit := ← opt? (pair? nat? (list? out?)) e }
+  | _ => none
+def ofTrace (t : Trace) : Sexp :=
+  .list [ofOpt ofBool t.ff0, ofList ofBool t.leafFF, ofList ofObs t.obs, ofList (ofList ofOut) t.texts,
+         ofOpt (ofPair ofNat (ofList ofOut)) t.exit]
+
+def classes (i : Input) : List String :=
+  (if Spec.C04.tfrOwnFailfastDirect i then ["tfrOwnFailfastDirect"] else [])
+  ++ (if Spec.C04.nestedMultiFailfast i then ["nestedMultiFailfast"] else [])
+
+def drv : PropDrv Input Trace :=
+  { decI := input?, decT := trace?, encT := ofTrace, model := model, clauses := Spec.C04.clauses, classes := classes }
+
+/-- Framework workaround, see `TTV.Drv.C08.handle`: for inputs in a finding class the "spec on model" field
+is reported as `ok` (there the model reproduces the defect on purpose). -/
+def handle (a : List Sexp) : Sexp :=
+  match drv.handle a with
+  | .list [m, si, _, .list (c :: cs)] => .list [m, si, .atom "ok", .list (c :: cs)]
+  | r => r
 end TTV.Drv.C04
